@@ -19,18 +19,21 @@ use std::sync::atomic::{AtomicIsize, AtomicUsize, Ordering};
 pub struct Counting;
 pub static LIVE: AtomicIsize = AtomicIsize::new(0);
 pub static ALLOCS: AtomicUsize = AtomicUsize::new(0);
+pub static LIVE_N: AtomicIsize = AtomicIsize::new(0);
 unsafe impl std::alloc::GlobalAlloc for Counting {
     unsafe fn alloc(&self, l: std::alloc::Layout) -> *mut u8 {
         let p = std::alloc::System.alloc(l);
         if !p.is_null() {
             LIVE.fetch_add(l.size() as isize, Ordering::Relaxed);
             ALLOCS.fetch_add(1, Ordering::Relaxed);
+            LIVE_N.fetch_add(1, Ordering::Relaxed);
         }
         p
     }
     unsafe fn dealloc(&self, p: *mut u8, l: std::alloc::Layout) {
         std::alloc::System.dealloc(p, l);
         LIVE.fetch_sub(l.size() as isize, Ordering::Relaxed);
+        LIVE_N.fetch_sub(1, Ordering::Relaxed);
     }
     unsafe fn realloc(&self, p: *mut u8, l: std::alloc::Layout, n: usize) -> *mut u8 {
         let q = std::alloc::System.realloc(p, l, n);
@@ -576,6 +579,26 @@ pub fn leak(args: &[String]) -> i32 {
             catch_unwind(AssertUnwindSafe(|| body(&mut mid)))
         };
         let after = LIVE.load(Ordering::SeqCst);
+        // bounded memory under reuse: live ALLOCATIONS after reset() (buffers keep their capacity, so bytes
+        // may differ, but every container is one allocation) after n calls and after 2n calls, every call
+        // with a different input
+        let mut growth: isize = 0;
+        if job.growth > 0 {
+            let _ = catch_unwind(AssertUnwindSafe(|| {
+                let mut g = build_generator(&job.cfg, None);
+                let mut counts = [0isize; 2];
+                for phase in 0..2 {
+                    for i in 0..job.growth {
+                        let inp = make_bytes(&job.bkind, job.blen, job.seed.wrapping_add((phase * job.growth + i) as u64 * 7919));
+                        let r = g.generate_from_arbitrary(&inp);
+                        drop(r);
+                    }
+                    g.reset();
+                    counts[phase] = LIVE_N.load(Ordering::SeqCst);
+                }
+                growth = counts[1] - counts[0];
+            }));
+        }
         // second run of the same job with the recorder in cycle-tracking mode
         let mut g = build_generator(&job.cfg, if job.mode == "seed" { Some(job.seed) } else { None });
         verif::start_recording(true);
@@ -599,7 +622,7 @@ pub fn leak(args: &[String]) -> i32 {
         let (cyc_op, cyc_ev) = match cyc_at { Some(i) => (ev[i].op.map(|o| o.as_u8() as i64).unwrap_or(-1), i as i64 + 1), None => (-1, 0) };
         let _ = &order;
         lines.push(serde_json::to_string(&json!({"id": job.id, "P": job.cfg.p, "ok": matches!(res, Ok(true)), "leaked": after - before,
-            "after_reset": if job.heap { mid - before } else { 0 }, "calls": job.warm + 1,
+            "after_reset": if job.heap { mid - before } else { 0 }, "calls": job.warm + 1 + 2 * job.growth, "growth": growth,
             "shared": shared, "cycle": cyc_at.is_some(), "cycle_op": cyc_op, "cycle_event": cyc_ev, "events": ev.len()})).unwrap());
     }
     let mut out = std::io::BufWriter::new(std::fs::File::create(&args[1]).unwrap());
